@@ -77,6 +77,7 @@ impl ChannelRegion for AU915Region {
 impl FixedChannelRegion for AU915Region {
     // SF8 / 500 kHz
     const JOIN_DR_500KHZ: DR = DR::_6;
+    const MAX_UPLINK_DR: DR = DR::_6;
 
     fn uplink_channels() -> &'static [u32; 72] {
         &UPLINK_CHANNEL_MAP
